@@ -6,13 +6,17 @@
 //!   arm ::= D | Q   (`DataOrSuffStat::Data(&xs)` | `DataOrSuffStat::SuffStat(&stat)`, stat = new(ndims) + observe each row)
 //!
 //!   mvg.new - <mu> <cov>                           -> ok | E:<Variant>
-//!   mvg.set_mu - <mu> <cov> <mu2>                  -> ok | E:<Variant>      (constructor errors: E0:<Variant>)
+//!   mvg.set_mu - <mu> <cov> <mu2>                  -> (ok | E:<Variant>) <mu()> <cov()>  = the object AFTER the call  (constructor errors: E0:<Variant>)
 //!   mvg.mean_variance - <mu> <cov>                 -> <mean> <variance>
 //!   mvg.ln_f - <mu> <cov> <x>                      -> f64
 //!   mvg.entropy - <mu> <cov>                       -> f64
 //!   mvg.ln_f_stat - <mu> <cov> <data>              -> f64   (statistic = empty_suffstat() + observe_many)
 //!   mvg.set_cov_then_ln_f - <mu> <cov1> <cov2> <x> -> <ln_f before> <ln_f after set_cov> <entropy after> <ln_f fresh> <entropy fresh>
-//!                                                   | E:<Variant> <ln_f after the failed set_cov> <entropy after>
+//!                                                     <mu()> <cov()> <object == fresh>
+//!                                                   | E:<Variant> <ln_f after the failed set_cov> <entropy after> <mu()> <cov()> <object == clone taken before the call>
+//!   mvg.from_chol - <mu> <cov> <x>                 -> N | E:MuCovDimensionMismatch <cov() of new_cholesky_unchecked>
+//!                                                   | <cov() of new_cholesky> <cov() of new_cholesky_unchecked> <==> <ln_f x> <entropy> <variance()> (unchecked one)
+//!                                                     <cov() of from_params(emit_params(new(mu,cov)))> <that == new(mu,cov)>
 //!   mvg.draw_with_z - <mu> <cov> <seed>            -> <z> <x>   (IMPLEMENTATION ONLY: z = draw of MvGaussian::standard(d) with
 //!                                                   the same seeded generator, i.e. the variates `draw` consumed; the model op
 //!                                                   `mvg.draw_z - <mu> <cov> <z>` must reproduce <x>)
@@ -29,6 +33,9 @@
 //!   niw.ln_pp - <niw> <y> <arm> <data>             -> f64
 //!   mat.det / mat.inverse / mat.chol / mat.chol_inverse - <M>  -> nalgebra `determinant()` | `try_inverse()` (N | S <M>) |
 //!                                                   `cholesky()` factor (N | S <L>) | `Cholesky::inverse()` and `ln_determinant()` (N | S <M> f64)
+//!   niw.draw_with_z - <niw> <seed>                 -> <Z (df+1)×d> <mu()> <cov()>  (IMPLEMENTATION ONLY: Z = the variates `draw` consumed, recovered by
+//!                                                   sampling MvGaussian::standard(d) from the same seeded generator; model op `niw.draw_z <niw> <Z>`)
+//!   niw.draw_maha - <niw> <seed> <n>               -> mean over n draws of k·(μ−μ0)ᵀΣ⁻¹(μ−μ0)  (IMPLEMENTATION ONLY; must be ≈ d for every k)
 //!   niw.draw_check - <niw> <seed>                  -> T|F  (IMPLEMENTATION ONLY: the drawn MvGaussian is supported by the prior)
 #![allow(unused)]
 use crate::wire::*;
@@ -106,13 +113,11 @@ pub fn dispatch(op: &str, _kind: &str, a: &mut Args) -> Option<String> {
             let (mu, cov, mu2) = (rd_vec(a), rd_mat(a), rd_vec(a));
             match MvGaussian::new(mu, cov) {
                 Err(e) => err_pre("E0", &e),
-                Ok(mut g) => match g.set_mu(mu2.clone()) {
-                    Ok(()) => {
-                        assert!(g.mu() == &mu2);
-                        "ok".to_string()
-                    }
-                    Err(e) => err_tok(&e),
-                },
+                Ok(mut g) => {
+                    let r = g.set_mu(mu2.clone());
+                    // the object AFTER the call is printed whether the setter failed or not
+                    format!("{} {} {}", match r { Ok(()) => "ok".to_string(), Err(e) => err_tok(&e) }, wr_vec(g.mu()), wr_mat(g.cov()))
+                }
             }
         }
         "mvg.mean_variance" => {
@@ -159,18 +164,57 @@ pub fn dispatch(op: &str, _kind: &str, a: &mut Args) -> Option<String> {
                 Err(e) => err_pre("E0", &e),
                 Ok(mut g) => {
                     let before = g.ln_f(&x);
+                    let orig = g.clone();
                     match g.set_cov(cov2.clone()) {
-                        Err(e) => format!("{} {} {}", err_tok(&e), tok(&g.ln_f(&x)), tok(&g.entropy())),
+                        Err(e) => [err_tok(&e), tok(&g.ln_f(&x)), tok(&g.entropy()), wr_vec(g.mu()), wr_mat(g.cov()), tok(&(g == orig))].join(" "),
                         Ok(()) => {
                             let after = g.ln_f(&x);
                             let h = g.entropy();
                             match MvGaussian::new(mu, cov2) {
                                 Err(e) => err_pre("E2", &e),
-                                Ok(fresh) => {
-                                    [tok(&before), tok(&after), tok(&h), tok(&fresh.ln_f(&x)), tok(&fresh.entropy())].join(" ")
-                                }
+                                Ok(fresh) => [
+                                    tok(&before),
+                                    tok(&after),
+                                    tok(&h),
+                                    tok(&fresh.ln_f(&x)),
+                                    tok(&fresh.entropy()),
+                                    wr_vec(g.mu()),
+                                    wr_mat(g.cov()),
+                                    tok(&(g == fresh)),
+                                ]
+                                .join(" "),
                             }
                         }
+                    }
+                }
+            }
+        }
+        "mvg.from_chol" => {
+            let (mu, cov, x) = (rd_vec(a), rd_mat(a), rd_vec(a));
+            match cov.clone().cholesky() {
+                None => "N".to_string(),
+                Some(chol) => {
+                    let b = MvGaussian::new_cholesky_unchecked(mu.clone(), chol.clone());
+                    match MvGaussian::new_cholesky(mu.clone(), chol) {
+                        Err(e) => format!("{} {}", err_tok(&e), wr_mat(b.cov())),
+                        Ok(ac) => match MvGaussian::new(mu, cov) {
+                            Err(e) => err_pre("E1", &e),
+                            Ok(c) => {
+                                let r = MvGaussian::from_params(c.emit_params());
+                                let var: DMatrix<f64> = b.variance().unwrap();
+                                [
+                                    wr_mat(ac.cov()),
+                                    wr_mat(b.cov()),
+                                    tok(&(b == ac)),
+                                    tok(&b.ln_f(&x)),
+                                    tok(&b.entropy()),
+                                    wr_mat(&var),
+                                    wr_mat(r.cov()),
+                                    tok(&(r == c)),
+                                ]
+                                .join(" ")
+                            }
+                        },
                     }
                 }
             }
@@ -321,6 +365,47 @@ pub fn dispatch(op: &str, _kind: &str, a: &mut Args) -> Option<String> {
                 Ok(niw) => {
                     let y = rd_vec(a);
                     tok(&with_arm(a, d, |x| niw.ln_pp(&y, x)))
+                }
+            }
+        }
+        "niw.draw_with_z" => {
+            let (r, d) = rd_niw(a);
+            let seed = a.n();
+            match r {
+                Err(e) => err_tok(&e),
+                Ok(niw) => {
+                    let mut r1 = Xoshiro256Plus::seed_from_u64(seed);
+                    let mut r2 = Xoshiro256Plus::seed_from_u64(seed);
+                    let g: MvGaussian = niw.draw(&mut r1);
+                    // the same generator state yields the same standard-normal variates: df vectors for the inverse-Wishart
+                    // part, one for the mean; with mu = 0 and L = I the draw of the standard Gaussian IS the variate vector
+                    let zs: Vec<DVector<f64>> = MvGaussian::standard(d).unwrap().sample(niw.df() + 1, &mut r2);
+                    let mut zm = DMatrix::<f64>::zeros(zs.len(), d);
+                    for (i, z) in zs.iter().enumerate() {
+                        for j in 0..d {
+                            zm[(i, j)] = z[j];
+                        }
+                    }
+                    format!("{} {} {}", wr_mat(&zm), wr_vec(g.mu()), wr_mat(g.cov()))
+                }
+            }
+        }
+        "niw.draw_maha" => {
+            let (r, _) = rd_niw(a);
+            let seed = a.n();
+            let n = a.n() as usize;
+            match r {
+                Err(e) => err_tok(&e),
+                Ok(niw) => {
+                    let mut rng = Xoshiro256Plus::seed_from_u64(seed);
+                    let mut acc = 0.0;
+                    for _ in 0..n {
+                        let g: MvGaussian = niw.draw(&mut rng);
+                        let dev = g.mu() - niw.mu();
+                        let sol = g.cov().clone().cholesky().unwrap().solve(&dev);
+                        acc += niw.k() * dev.dot(&sol);
+                    }
+                    tok(&(acc / n as f64))
                 }
             }
         }
